@@ -692,7 +692,14 @@ def compare_params(pa, pb, clause, *, rtol=1e-7, atol=1e-9, kind='', what=''):
             scale = max(float(np.max(np.abs(a))) if a.size else 0.0,
                         float(np.max(np.abs(b))) if b.size else 0.0)
             err = float(np.max(np.abs(a - b))) if a.size else 0.0
-            if err > atol + rtol * scale:
+            # Bingham eigenvalues come from an iterative bounded least-squares
+            # solver (termination tolerance 1e-8 on the cost): two runs on
+            # inputs that differ by rounding agree to about 1e-4 relative
+            if key == 'bingham_matrix':
+                rtol_k, atol_k = max(rtol, 1e-3), max(atol, 1e-3)
+            else:
+                rtol_k, atol_k = rtol, atol
+            if err > atol_k + rtol_k * scale:
                 raise Violation(
                     clause, f'{what} {key}: max|diff|={err:.3e} '
                             f'(scale {scale:.3e})', kind=kind)
